@@ -374,6 +374,17 @@ Theorem C14_fine_no_deadlock : forall sg r0 st0 tr f,
 Proof. exact fine_no_deadlock. Qed.
 Print Assumptions C14_fine_no_deadlock.
 
+(* ... and termination: from every reachable state, without new calls, only a bounded number
+   of steps (lock regions, channel operations, HTTP exchanges) can still happen; together with
+   C14_fine_no_deadlock: every call returns and releases its Pool entry *)
+Theorem C14_fine_bounded_completion : forall sg r0 st0 tr f,
+  frun sg (finit r0 st0) tr = Some f ->
+  exists bound, forall tr' f',
+    forallb (fun e => negb (fis_env e)) tr' = true -> frun sg f tr' = Some f' ->
+    (length tr' <= bound)%nat.
+Proof. exact fine_bounded_completion. Qed.
+Print Assumptions C14_fine_bounded_completion.
+
 Theorem C14_fine_counting : forall sg r0 st0 tr f,
   frun sg (finit r0 st0) tr = Some f -> InvF f /\ InvP f.
 Proof. exact fine_reachable_inv. Qed.
